@@ -13,6 +13,20 @@ Qed.
 Lemma submit_refused_when_broken p : broken p = true -> sexec submit_prog p = None.
 Proof. intros B. unfold submit_prog. simpl. rewrite B. reflexivity. Qed.
 
+Lemma checks_fail_when_closed p : closed p = true -> user p = true -> checks_pass submit_prog p = None.
+Proof.
+  unfold closed. intros C U. rewrite U in C. simpl in C. unfold submit_prog. simpl.
+  destruct (broken p); [reflexivity|]. destruct (shut p); [reflexivity|]. destruct (gshut p); [reflexivity|]. discriminate.
+Qed.
+Lemma checks_fail_when_broken p : broken p = true -> checks_pass submit_prog p = None.
+Proof. intros B. unfold submit_prog. simpl. rewrite B. reflexivity. Qed.
+Lemma checks_pass_means_open p r : checks_pass submit_prog p = Some r ->
+  broken p = false /\ shut p = false /\ gshut p = false /\ r = skipn 3 submit_prog.
+Proof.
+  unfold submit_prog. simpl. destruct (broken p); [discriminate|]. destruct (shut p); [discriminate|]. destruct (gshut p); [discriminate|].
+  intros H. inversion H. auto.
+Qed.
+
 Lemma submit_accepted p p' : sexec submit_prog p = Some p' ->
   broken p = false /\ shut p = false /\ gshut p = false /\
   pending p' = S (pending p) /\ submitted p' = S (submitted p) /\ ok p' = ok p /\ failB p' = failB p /\ failS p' = failS p /\
@@ -143,10 +157,13 @@ Proof. vm_compute. reflexivity. Qed.
 
 (* ------------------------------------------------------------------------------------------------------------------ *)
 (* 2. The invariant.                                                                                                    *)
+Definition SubLive (p : pool) : Prop :=
+  match sub p with Some r => user p = true /\ closed p = false /\ broken p = false /\ exists k, r = skipn k submit_prog | None => True end.
+
 Definition Inv (p : pool) : Prop :=
   (failB p > 0 -> broken p = true) /\
   submitted p = ok p + failB p + failS p + pending p /\
-  length (procs p) <= maxw p /\
+  length (procs p) <= maxw p /\ SubLive p /\
   match mgr p with
   | MLoop => True
   | MOps t ops => wf_ops ops = true /\ exists a, approx p a /\ awf a = true /\ good t ops a = true
@@ -154,7 +171,10 @@ Definition Inv (p : pool) : Prop :=
   end.
 
 Lemma inv0 n : Inv (pool0 n).
-Proof. unfold Inv, pool0; simpl. repeat split; auto; lia. Qed.
+Proof. unfold Inv, SubLive, pool0; simpl. repeat split; auto; lia. Qed.
+
+Lemma sublive_closed p : SubLive p -> closed p = true -> sub p = None.
+Proof. unfold SubLive. destruct (sub p); [intros (_ & C & _) H; congruence | auto]. Qed.
 
 Lemma top_up_length p : length (procs p) <= maxw p -> length (procs (top_up p)) <= maxw p.
 Proof. unfold top_up. simpl. rewrite app_length, repeat_length. lia. Qed.
@@ -182,61 +202,135 @@ Proof.
   - apply negb_true_iff, orb_false_iff in W. destruct W as [-> ->]. repeat split; auto; discriminate.
 Qed.
 
-Lemma inv_ext p q :
+Lemma inv_fields p q :
   user q = user p -> shut q = shut p -> broken q = broken p -> gshut q = gshut p -> maxw q = maxw p -> procs q = procs p ->
   pending q = pending p -> submitted q = submitted p -> ok q = ok p -> failB q = failB p -> failS q = failS p -> mgr q = mgr p ->
-  Inv p -> Inv q.
+  SubLive q -> Inv p -> Inv q.
 Proof.
-  unfold Inv, approx, closed. intros -> -> -> -> -> -> -> -> -> -> -> ->. auto.
+  unfold Inv, approx, closed. intros -> -> -> -> -> -> -> -> -> -> -> -> S (I1 & I2 & I3 & _ & I4). auto.
 Qed.
+Lemma sublive_same p q : sub q = sub p -> user q = user p -> shut q = shut p -> gshut q = gshut p -> broken q = broken p ->
+  SubLive p -> SubLive q.
+Proof. unfold SubLive, closed. intros -> -> -> -> ->. auto. Qed.
+Lemma sublive_none q : sub q = None -> SubLive q.
+Proof. unfold SubLive. intros ->. exact I. Qed.
+
+Lemma skipn_cons {A} (l : list A) : forall k o r, skipn k l = o :: r -> skipn (S k) l = r.
+Proof.
+  induction l as [|x l IH]; intros [|k] o r H; simpl in *; try discriminate.
+  - inversion H. reflexivity.
+  - apply (IH k o r H).
+Qed.
+
+Lemma cprim_unlocked o p : needs_lock o = false -> simple o = true ->
+  shut (cprim o p) = shut p /\ broken (cprim o p) = broken p /\ user (cprim o p) = user p /\ gshut (cprim o p) = gshut p
+  /\ sub (cprim o p) = sub p.
+Proof. destruct o; simpl; intros; try discriminate; auto. Qed.
+Lemma cprim_sub o p : sub (cprim o p) = sub p.
+Proof. destruct o; reflexivity. Qed.
+
+Lemma mgrop_simple p t o r : mgr p = MOps t (o :: r) -> simple o = true ->
+  step p MgrOp = if needs_lock o && negb (lock_free p) then p else set_mgr (cprim o p) (MOps t r).
+Proof. intros M S. unfold step. rewrite M. destruct o; try discriminate; destruct t; reflexivity. Qed.
+Lemma mgrop_ifkill p t ops r : mgr p = MOps t (IfKillWorkers ops :: r) ->
+  step p MgrOp = set_mgr p (MOps t (if kill p then ops ++ r else r)).
+Proof. intros M. unfold step. rewrite M. destruct t; reflexivity. Qed.
+Lemma mgrop_end p t : mgr p = MOps t [] ->
+  step p MgrOp = match t with TShutting => if Nat.eqb (pending p) 0 then set_mgr p (MOps TJoining joining_ops) else set_mgr p MLoop
+                            | _ => set_mgr p MDone end.
+Proof. intros M. unfold step. rewrite M. destruct t; reflexivity. Qed.
 
 Lemma step_inv p e : e <> ResizeTopUp -> Inv p -> Inv (step p e).
 Proof.
-  intros NE HI. pose proof HI as (I1 & I2 & I3 & I4). destruct e; try congruence; unfold step.
-  - (* Submit *)
-    destruct (user p) eqn:U; [|exact HI].
-    destruct (sexec submit_prog p) as [p'|] eqn:S.
-    + destruct (submit_accepted p p' S) as (B & Sh & G & Pn & Su & Ok & FB & FS & Sh' & B' & K' & G' & U' & M' & Mx & Rf & Pr).
-      assert (NC : closed p = false) by (unfold closed; rewrite U, Sh, G; reflexivity).
-      unfold Inv. rewrite FB, B', Su, Ok, FS, Pn, M', Mx. split; [exact I1|]. split; [lia|]. split.
-      * rewrite Pr. destruct ensure_running_tops_up_then_starts_manager; [rewrite app_length, repeat_length; lia | exact I3].
-      * destruct (mgr p) as [|t ops|]; [exact I|  |].
-        -- destruct I4 as (Wf & a & A & W & Gd). split; [exact Wf|]. exists a. split; [|split; assumption].
-           apply (approx_env p p' a W A); try congruence.
-        -- destruct I4 as (_ & _ & C). congruence.
-    + apply (inv_ext p); simpl; auto.
+  intros NE HI. pose proof HI as (I1 & I2 & I3 & SL & I4). destruct e; try congruence; unfold step.
+  - (* Submit: the leading checks *)
+    destruct (user p && lock_free p) eqn:G; [|exact HI]. apply andb_true_iff in G. destruct G as [U LF].
+    assert (SN : sub p = None) by (unfold lock_free in LF; destruct (sub p); [discriminate | reflexivity]).
+    destruct (checks_pass submit_prog p) as [rest|] eqn:C.
+    + destruct (checks_pass_means_open p rest C) as (B & Sh & Gs & R).
+      apply (inv_fields p); simpl; auto.
+      unfold SubLive; simpl. destruct rest; [exact I|]. repeat split; auto.
+      * unfold closed; simpl. rewrite U, Sh, Gs. reflexivity.
+      * exists 3. exact R.
+    + apply (inv_fields p); simpl; auto. apply sublive_none. reflexivity.
+  - (* SubmitStep *)
+    destruct (sub p) as [[|o r]|] eqn:SB; [apply (inv_fields p); simpl; auto; apply sublive_none; reflexivity | | exact HI].
+    unfold SubLive in SL. rewrite SB in SL. destruct SL as (U & NC & NB & k & K).
+    assert (Sh : shut p = false /\ gshut p = false).
+    { unfold closed in NC. rewrite U in NC. simpl in NC. apply orb_false_iff in NC. exact NC. }
+    destruct Sh as [Sh Gs].
+    assert (NR : raises o p = false) by (destruct o; simpl; auto).
+    assert (SLn : forall q, sub q = match r with [] => None | _ => Some r end -> user q = user p -> shut q = shut p -> gshut q = gshut p ->
+                            broken q = broken p -> SubLive q).
+    { intros q Hs Hu Hsh Hg Hb. unfold SubLive. rewrite Hs. destruct r; [exact I|].
+      unfold closed. rewrite Hu, Hsh, Hg, Hb. repeat split; auto. exists (S k). symmetry. apply (skipn_cons _ _ o). symmetry. exact K. }
+    assert (PH : forall q, closed q = false -> broken q = broken p -> mgr q = mgr p ->
+                 match mgr q with
+                 | MLoop => True
+                 | MOps t ops => wf_ops ops = true /\ exists a, approx q a /\ awf a = true /\ good t ops a = true
+                 | MDone => pending q = 0 /\ procs q = [] /\ closed q = true
+                 end).
+    { intros q Cq Bq Mq. rewrite Mq. destruct (mgr p) as [|t ops|]; [exact I| |].
+      - destruct I4 as (Wf & a & (Ac & Ab & Az & Ae) & W & Gd). split; [exact Wf|]. exists a. split; [|split; assumption].
+        assert (a_c a = false) by (destruct (a_c a); [specialize (Ac eq_refl); congruence | reflexivity]).
+        unfold awf in W. rewrite H in W. simpl in W. apply negb_true_iff, orb_false_iff in W. destruct W as [Wz We].
+        unfold approx. rewrite H, Wz, We. repeat split; try discriminate. intros X. rewrite Bq. apply Ab, X.
+      - destruct I4 as (_ & _ & C). congruence. }
+    unfold sop1. destruct o; rewrite ?NR.
+    all: try (apply (inv_fields p); simpl; auto; apply SLn; reflexivity).
+    + (* SAddPending *)
+      unfold Inv; simpl. split; [exact I1|]. split; [lia|]. split; [exact I3|].
+      split; [apply SLn; reflexivity|]. apply (PH (mkp (user p) (shut p) (broken p) (kill p) (gshut p) (maxw p) (procs p) (S (pending p))
+                                                      (S (submitted p)) (ok p) (failB p) (failS p) (refused p) (mgr p)
+                                                      (match r with [] => None | _ => Some r end))); auto.
+    + (* SEnsureRunning *)
+      destruct ensure_running_tops_up_then_starts_manager.
+      * unfold Inv; simpl. split; [exact I1|]. split; [exact I2|]. split; [rewrite app_length, repeat_length; lia|].
+        split; [apply SLn; reflexivity|].
+        apply (PH (set_sub (top_up p) (match r with [] => None | _ => Some r end))); auto.
+      * apply (inv_fields p); simpl; auto; apply SLn; reflexivity.
   - (* ShutdownCall *)
-    destruct (user p && shutdown_flags_first_with_kill_argument); [|exact HI].
+    destruct (user p && lock_free p && shutdown_flags_first_with_kill_argument) eqn:G; [|exact HI].
+    apply andb_true_iff in G. destruct G as [G _]. apply andb_true_iff in G. destruct G as [_ LF].
+    assert (SN : sub p = None) by (unfold lock_free in LF; destruct (sub p); [discriminate | reflexivity]).
     pose proof (flag_shutdown_sets (Some k) p) as F. cbv zeta in F.
     destruct F as (Sh & B & U & G & Pn & Pr & M & Su & Ok & FB & FS & Mx & K).
-    unfold Inv. rewrite FB, B, Su, Ok, FS, Pn, Pr, M, Mx. repeat split; auto.
+    assert (SQ : sub (fexec flag_as_shutting_down_prog (Some k) p) = None) by (unfold flag_as_shutting_down_prog, fexec; simpl; exact SN).
+    unfold Inv. rewrite FB, B, Su, Ok, FS, Pn, Pr, M, Mx. split; [exact I1|]. split; [exact I2|]. split; [exact I3|].
+    split; [apply sublive_none, SQ|].
     assert (C : closed (fexec flag_as_shutting_down_prog (Some k) p) = true) by (unfold closed; rewrite Sh; destruct (user _); reflexivity).
     destruct (mgr p) as [|t ops|]; [exact I| |].
     + destruct I4 as (Wf & a & A & W & Gd). split; [exact Wf|]. exists a. split; [|split; assumption].
       apply (approx_env p _ a W A); auto; congruence.
     + destruct I4 as (Z & E & _). auto.
   - (* Drop *)
-    unfold Inv; simpl. repeat split; auto.
+    destruct (lock_free p) eqn:LF; [|exact HI].
+    assert (SN : sub p = None) by (unfold lock_free in LF; destruct (sub p); [discriminate | reflexivity]).
+    unfold Inv; simpl. split; [exact I1|]. split; [exact I2|]. split; [exact I3|]. split; [apply sublive_none; exact SN|].
     destruct (mgr p) as [|t ops|]; [exact I| |].
     + destruct I4 as (Wf & a & A & W & Gd). split; [exact Wf|]. exists a. split; [|split; assumption].
       apply (approx_env p _ a W A); simpl; auto.
     + destruct I4 as (Z & E & _). auto.
   - (* InterpreterExit *)
-    unfold Inv; simpl. repeat split; auto.
+    destruct (lock_free p) eqn:LF; [|exact HI].
+    assert (SN : sub p = None) by (unfold lock_free in LF; destruct (sub p); [discriminate | reflexivity]).
+    unfold Inv; simpl. split; [exact I1|]. split; [exact I2|]. split; [exact I3|]. split; [apply sublive_none; exact SN|].
     destruct (mgr p) as [|t ops|]; [exact I| |].
     + destruct I4 as (Wf & a & A & W & Gd). split; [exact Wf|]. exists a. split; [|split; assumption].
       apply (approx_env p _ a W A); simpl; auto; unfold closed; simpl; intros; rewrite ?orb_true_r; auto.
     + destruct I4 as (Z & E & _). repeat split; auto. unfold closed; simpl. rewrite orb_true_r. reflexivity.
   - (* Crash *)
     destruct (nth_error (procs p) i) as [[| |]|] eqn:N; try exact HI.
-    unfold Inv; simpl. rewrite set_nth_length. repeat split; auto.
+    unfold Inv; simpl. rewrite set_nth_length. split; [exact I1|]. split; [exact I2|]. split; [exact I3|].
+    split; [apply (sublive_same p); auto|].
     destruct (mgr p) as [|t ops|]; [exact I| |].
     + destruct I4 as (Wf & a & (Ac & Ab & Az & Ae) & W & Gd). split; [exact Wf|]. exists a. split; [|split; assumption].
       repeat split; auto. intros H. rewrite (Ae H) in N. destruct i; discriminate.
     + destruct I4 as (Z & E & C). rewrite E in N. destruct i; discriminate.
   - (* IdleExit *)
     destruct (nth_error (procs p) i) as [[| |]|] eqn:N; try exact HI.
-    unfold Inv; simpl. rewrite set_nth_length. repeat split; auto.
+    unfold Inv; simpl. rewrite set_nth_length. split; [exact I1|]. split; [exact I2|]. split; [exact I3|].
+    split; [apply (sublive_same p); auto|].
     destruct (mgr p) as [|t ops|]; [exact I| |].
     + destruct I4 as (Wf & a & (Ac & Ab & Az & Ae) & W & Gd). split; [exact Wf|]. exists a. split; [|split; assumption].
       repeat split; auto. intros H. rewrite (Ae H) in N. destruct i; discriminate.
@@ -245,64 +339,73 @@ Proof.
     destruct (nth_error (procs p) i) as [[| |]|]; try exact HI.
     destruct (pending p) as [|n] eqn:Pn; [exact HI|].
     unfold in_loop. destruct (mgr p) eqn:M; try exact HI.
-    unfold Inv; simpl. repeat split; auto. lia.
+    unfold Inv; simpl. split; [exact I1|]. split; [lia|]. split; [exact I3|]. split; [apply (sublive_same p); auto | exact I].
   - (* Reap *)
     destruct (nth_error (procs p) i) as [[| |]|]; try exact HI.
     unfold in_loop. destruct (mgr p) eqn:M; try exact HI.
     assert (L : length (del_nth (procs p) i) <= maxw p) by (pose proof (del_nth_length (procs p) i); lia).
-    destruct (user p && negb (Nat.eqb (pending p) 0)).
-    + unfold Inv; simpl. rewrite ?M. repeat split; auto. rewrite app_length, repeat_length. simpl. lia.
-    + unfold Inv; simpl. rewrite ?M. repeat split; auto.
+    destruct (user p && negb (Nat.eqb (pending p) 0) && clean_exit_reads_counters_after_the_pop_and_respawns_when_work_waits).
+    + unfold Inv; simpl. rewrite ?M. split; [exact I1|]. split; [exact I2|]. split; [rewrite app_length, repeat_length; simpl; lia|].
+      split; [apply (sublive_same p); auto | exact I].
+    + unfold Inv; simpl. rewrite ?M. split; [exact I1|]. split; [exact I2|]. split; [exact L|]. split; [apply (sublive_same p); auto | exact I].
   - (* Detect *)
     destruct (in_loop p && existsb is_dead (procs p)); [|exact HI].
-    unfold Inv; simpl. split; [exact I1|]. split; [exact I2|]. split; [exact I3|]. split; [exact wf_broken|].
+    unfold Inv; simpl. split; [exact I1|]. split; [exact I2|]. split; [exact I3|]. split; [apply (sublive_same p); auto|].
+    split; [exact wf_broken|].
     exists a0. split; [unfold approx, a0; simpl; repeat split; discriminate|]. split; [reflexivity | exact broken_list_good].
   - (* CheckShut *)
     destruct (in_loop p && beval is_shutting_down_expr p) eqn:C; [|exact HI].
     apply andb_true_iff in C. destruct C as [_ C]. apply shutting_down_means_closed in C.
-    unfold Inv; simpl. split; [exact I1|]. split; [exact I2|]. split; [exact I3|]. split; [exact wf_shutting|].
+    unfold Inv; simpl. split; [exact I1|]. split; [exact I2|]. split; [exact I3|]. split; [apply (sublive_same p); auto|].
+    split; [exact wf_shutting|].
     exists a_shutting. split; [unfold approx, a_shutting; simpl; repeat split; auto; discriminate|].
     split; [reflexivity | exact shutting_list_good].
   - (* MgrOp *)
-    destruct (mgr p) as [|t ops|] eqn:M; try exact HI.
+    change (Inv (step p MgrOp)).
+    destruct (mgr p) as [|t ops|] eqn:M; try (unfold step; rewrite M; exact HI).
     destruct I4 as (Wf & a & A & W & Gd).
     destruct ops as [|o r].
     + (* end of a list *)
+      rewrite (mgrop_end p t M).
       assert (F : final t a = true) by (unfold good in Gd; simpl in Gd; apply andb_true_iff in Gd; apply Gd).
       unfold final in F. apply andb_true_iff in F. destruct F as [_ F]. destruct A as (Ac & Ab & Az & Ae).
       destruct t.
-      * apply andb_true_iff in F. destruct F as [Fz Fe]. unfold Inv; simpl. repeat split; auto.
-        apply Ac, (awf_closed a W Fz).
+      * apply andb_true_iff in F. destruct F as [Fz Fe]. unfold Inv; simpl.
+        split; [exact I1|]. split; [exact I2|]. split; [exact I3|]. split; [apply (sublive_same p); auto|].
+        repeat split; auto. apply Ac, (awf_closed a W Fz).
       * destruct (Nat.eqb (pending p) 0) eqn:Z.
         -- apply Nat.eqb_eq in Z. unfold Inv; simpl.
-           split; [exact I1|]. split; [exact I2|]. split; [exact I3|]. split; [exact wf_joining|].
+           split; [exact I1|]. split; [exact I2|]. split; [exact I3|]. split; [apply (sublive_same p); auto|]. split; [exact wf_joining|].
            exists a_joining. split; [unfold approx, a_joining; simpl; repeat split; auto; discriminate|].
            split; [reflexivity | exact joining_list_good].
-        -- unfold Inv; simpl. repeat split; auto.
-      * apply andb_true_iff in F. destruct F as [Fz Fe]. unfold Inv; simpl. repeat split; auto.
-        apply Ac, (awf_closed a W Fz).
+        -- unfold Inv; simpl. split; [exact I1|]. split; [exact I2|]. split; [exact I3|]. split; [apply (sublive_same p); auto | exact I].
+      * apply andb_true_iff in F. destruct F as [Fz Fe]. unfold Inv; simpl.
+        split; [exact I1|]. split; [exact I2|]. split; [exact I3|]. split; [apply (sublive_same p); auto|].
+        repeat split; auto. apply Ac, (awf_closed a W Fz).
     + destruct (simple o) eqn:So.
       * (* a primitive operation *)
+        rewrite (mgrop_simple p t o r M So).
+        destruct (needs_lock o && negb (lock_free p)) eqn:NL; [exact HI|].
         destruct (good_tail t o r a So Gd) as [Gr Er].
         destruct (cprim_sound o p a So W Er A) as (A' & FB & U & G & K & Mx & Sh & B & Su & Ok & Cons & Len & Mg).
         assert (Wr : wf_ops r = true) by (simpl in Wf; apply andb_true_iff in Wf; apply Wf).
-        assert (St : step p MgrOp = set_mgr (cprim o p) (MOps t r)).
-        { unfold step. rewrite M. destruct o; try (destruct t; reflexivity); simpl in So; discriminate. }
-        unfold step in St. rewrite M in St. rewrite St.
-        unfold Inv; simpl. repeat split.
+        unfold Inv; simpl. split; [|split; [|split; [|split]]].
         -- intros H. destruct (Nat.eq_dec (failB (cprim o p)) (failB p)) as [E|E]; [rewrite E in H; apply B, I1, H | apply FB; exact E].
         -- lia.
         -- lia.
-        -- exact Wr.
-        -- exists (aprim o a). split; [|split; [apply awf_prim, W | exact Gr]].
+        -- (* SubLive *)
+           destruct (needs_lock o) eqn:Nk.
+           ++ simpl in NL. apply negb_false_iff in NL. unfold lock_free in NL.
+              apply sublive_none. simpl. rewrite cprim_sub. destruct (sub p); [discriminate | reflexivity].
+           ++ destruct (cprim_unlocked o p Nk So) as (X1 & X2 & X3 & X4 & X5).
+              apply (sublive_same p); simpl; auto.
+        -- split; [exact Wr|]. exists (aprim o a). split; [|split; [apply awf_prim, W | exact Gr]].
            destruct A' as (x1 & x2 & x3 & x4). repeat split; auto.
       * (* the kill_workers block *)
-        destruct o; try discriminate. simpl in Wf. apply andb_true_iff in Wf. destruct Wf as [Wi Wr].
+        destruct o; try discriminate. rewrite (mgrop_ifkill p t ops r M).
+        simpl in Wf. apply andb_true_iff in Wf. destruct Wf as [Wi Wr].
         unfold good in Gd. simpl in Gd. rewrite forallb_app in Gd. apply andb_true_iff in Gd. destruct Gd as [G1 G2].
-        assert (St : step p MgrOp = set_mgr p (MOps t (if kill p then ops ++ r else r))).
-        { unfold step. rewrite M. destruct t; reflexivity. }
-        unfold step in St. rewrite M in St. rewrite St.
-        unfold Inv; simpl. split; [exact I1|]. split; [exact I2|]. split; [exact I3|]. split.
+        unfold Inv; simpl. split; [exact I1|]. split; [exact I2|]. split; [exact I3|]. split; [apply (sublive_same p); auto|]. split.
         -- destruct (kill p); [|exact Wr]. unfold wf_ops. rewrite forallb_app. fold (wf_ops r). rewrite Wr, andb_true_r.
            clear - Wi. induction ops as [|x xs IH]; simpl in *; auto. apply andb_true_iff in Wi. destruct Wi as [Sx Wi].
            rewrite (IH Wi), andb_true_r. destruct x; auto; discriminate.
@@ -321,14 +424,16 @@ Qed.
 Lemma size_inv p e : length (procs p) <= maxw p -> length (procs (step p e)) <= maxw (step p e) /\ maxw (step p e) = maxw p.
 Proof.
   intros L. destruct e; unfold step.
-  - destruct (user p); [|auto]. destruct (sexec submit_prog p) as [p'|] eqn:S; [|simpl; auto].
-    destruct (submit_accepted p p' S) as (_ & _ & _ & _ & _ & _ & _ & _ & _ & _ & _ & _ & _ & _ & Mx & _ & Pr).
-    rewrite Mx, Pr. split; [|reflexivity]. destruct ensure_running_tops_up_then_starts_manager; [rewrite app_length, repeat_length; lia | exact L].
-  - destruct (user p && shutdown_flags_first_with_kill_argument); [|auto].
+  - destruct (user p && lock_free p); [|auto]. destruct (checks_pass submit_prog p); simpl; auto.
+  - destruct (sub p) as [[|o r]|]; simpl; auto.
+    unfold sop1. destruct o; try (destruct (raises _ p)); simpl; auto.
+    all: try (destruct ensure_running_tops_up_then_starts_manager; simpl; auto).
+    all: rewrite app_length, repeat_length; split; [lia | reflexivity].
+  - destruct (user p && lock_free p && shutdown_flags_first_with_kill_argument); [|auto].
     pose proof (flag_shutdown_sets (Some k) p) as F. cbv zeta in F. destruct F as (_ & _ & _ & _ & _ & Pr & _ & _ & _ & _ & _ & Mx & _).
     rewrite Pr, Mx. auto.
-  - simpl; auto.
-  - simpl; auto.
+  - destruct (lock_free p); simpl; auto.
+  - destruct (lock_free p); simpl; auto.
   - destruct (nth_error (procs p) i) as [[| |]|]; simpl; rewrite ?set_nth_length; auto.
   - destruct (nth_error (procs p) i) as [[| |]|]; simpl; rewrite ?set_nth_length; auto.
   - destruct (nth_error (procs p) i) as [[| |]|]; auto. destruct (pending p); auto. destruct (in_loop p); simpl; auto.
@@ -343,7 +448,7 @@ Proof.
       { pose proof (flag_broken_sets p) as Fb. cbv zeta in Fb. destruct Fb as (_ & _ & _ & _ & _ & Prb & _ & _ & _ & _ & _ & _ & Mxb).
         pose proof (flag_shutdown_sets None p) as Fs. cbv zeta in Fs. destruct Fs as (_ & _ & _ & _ & _ & Prs & _ & _ & _ & _ & _ & Mxs & _).
         destruct o; unfold cprim; rewrite ?Prb, ?Mxb, ?Prs, ?Mxs; simpl; rewrite ?map_length; auto; split; auto; lia. }
-      destruct t, o; simpl; try exact H; auto.
+      destruct t, o; simpl; try exact H; auto; destruct (lock_free p); simpl; try exact H; auto.
   - destruct (user p); auto. simpl. rewrite app_length, repeat_length. lia.
 Qed.
 Theorem never_more_than_max es : forall p, length (procs p) <= maxw p -> length (procs (run es p)) <= maxw p.
@@ -368,18 +473,22 @@ Proof. apply (run_inv es (pool0 n) NR (inv0 n)). Qed.
 
 Theorem manager_gone_means_all_settled :
   mgr p = MDone -> pending p = 0 /\ procs p = [] /\ closed p = true.
-Proof. intros M. pose proof (run_inv es (pool0 n) NR (inv0 n)) as (_ & _ & _ & I). fold p in I. rewrite M in I. exact I. Qed.
+Proof. intros M. pose proof (run_inv es (pool0 n) NR (inv0 n)) as (_ & _ & _ & _ & I). fold p in I. rewrite M in I. exact I. Qed.
 
-Theorem after_the_manager_nothing_is_accepted : mgr p = MDone -> user p = true -> step p Submit = mkp (user p) (shut p) (broken p) (kill p) (gshut p) (maxw p) (procs p) (pending p) (submitted p) (ok p) (failB p) (failS p) (S (refused p)) (mgr p).
+Theorem after_the_manager_nothing_is_accepted : mgr p = MDone -> user p = true -> step p Submit = refuse p.
 Proof.
   intros M U. destruct (manager_gone_means_all_settled M) as (_ & _ & C).
-  unfold step. rewrite U, (submit_refused_when_closed p C U). reflexivity.
+  pose proof (run_inv es (pool0 n) NR (inv0 n)) as (_ & _ & _ & SL & _). fold p in SL.
+  pose proof (sublive_closed p SL C) as SN.
+  unfold step, lock_free. rewrite U, SN. cbn [andb]. rewrite (checks_fail_when_closed p C U). reflexivity.
 Qed.
 End Reachable.
 
-Theorem broken_pool_refuses p : user p = true -> broken p = true ->
-  pending (step p Submit) = pending p /\ refused (step p Submit) = S (refused p) /\ submitted (step p Submit) = submitted p.
-Proof. intros U B. unfold step. rewrite U, (submit_refused_when_broken p B). simpl. auto. Qed.
+(* a submit() that finds the lock free on a broken / shut-down pool raises: nothing is registered *)
+Theorem broken_pool_refuses p : user p = true -> sub p = None -> broken p = true ->
+  pending (step p Submit) = pending p /\ refused (step p Submit) = S (refused p) /\ submitted (step p Submit) = submitted p
+  /\ sub (step p Submit) = None.
+Proof. intros U SN B. unfold step, lock_free. rewrite U, SN. cbn [andb]. rewrite (checks_fail_when_broken p B). simpl. auto. Qed.
 
 (* graceful shutdown never drops work: without kill_workers no future is failed with ShutdownExecutorError *)
 Definition never_kill (es : list ev) : bool := forallb (fun e => match e with ShutdownCall true => false | _ => true end) es.
@@ -396,14 +505,15 @@ Proof. unfold Inv5. intros -> -> ->. auto. Qed.
 Lemma step_inv5 p e : e <> ShutdownCall true -> Inv5 p -> Inv5 (step p e).
 Proof.
   intros NE HI. pose proof HI as (K & F & M). destruct e; unfold step.
-  - destruct (user p); [|exact HI]. destruct (sexec submit_prog p) as [p'|] eqn:S; [|apply (inv5_ext p); simpl; auto].
-    destruct (submit_accepted p p' S) as (_ & _ & _ & _ & _ & _ & _ & FS & _ & _ & K' & _ & _ & M' & _).
-    apply (inv5_ext p); auto.
-  - destruct k; [congruence|]. destruct (user p && shutdown_flags_first_with_kill_argument); [|exact HI].
+  - destruct (user p && lock_free p); [|exact HI]. destruct (checks_pass submit_prog p); apply (inv5_ext p); simpl; auto.
+  - destruct (sub p) as [[|o r]|]; [apply (inv5_ext p); simpl; auto | | exact HI].
+    unfold sop1. destruct o; try (destruct (raises _ p)); try (destruct ensure_running_tops_up_then_starts_manager);
+      apply (inv5_ext p); simpl; auto.
+  - destruct k; [congruence|]. destruct (user p && lock_free p && shutdown_flags_first_with_kill_argument); [|exact HI].
     pose proof (flag_shutdown_sets (Some false) p) as X. cbv zeta in X. destruct X as (_ & _ & _ & _ & _ & _ & Mg & _ & _ & _ & FS & _ & K').
     unfold Inv5. rewrite K', FS, Mg. auto.
-  - first [exact HI | apply (inv5_ext p); simpl; auto].
-  - first [exact HI | apply (inv5_ext p); simpl; auto].
+  - destruct (lock_free p); first [exact HI | apply (inv5_ext p); simpl; auto].
+  - destruct (lock_free p); first [exact HI | apply (inv5_ext p); simpl; auto].
   - destruct (nth_error (procs p) i) as [[| |]|]; try exact HI; try (apply (inv5_ext p); simpl; auto).
   - destruct (nth_error (procs p) i) as [[| |]|]; try exact HI; try (apply (inv5_ext p); simpl; auto).
   - destruct (nth_error (procs p) i) as [[| |]|]; try exact HI. destruct (pending p); try exact HI.
@@ -420,7 +530,8 @@ Proof.
     + simpl in M. apply andb_true_iff in M. destruct M as [Mo Mr].
       pose proof (flag_broken_sets p) as Xb. cbv zeta in Xb. destruct Xb as (_ & _ & _ & _ & _ & _ & _ & _ & _ & _ & FSb & Kb & _).
       pose proof (flag_shutdown_sets None p) as Xs. cbv zeta in Xs. destruct Xs as (_ & _ & _ & _ & _ & _ & _ & _ & _ & _ & FSs & _ & Ks).
-      destruct o; try discriminate; destruct t; unfold Inv5, cprim; simpl; rewrite ?FSb, ?Kb, ?FSs, ?Ks, ?K; auto.
+      destruct o; try discriminate; destruct t; unfold Inv5, cprim; simpl; try (destruct (lock_free p); simpl; rewrite ?E);
+        rewrite ?FSb, ?Kb, ?FSs, ?Ks, ?K; auto.
   - destruct (user p); try exact HI; try (apply (inv5_ext p); simpl; auto).
 Qed.
 Theorem graceful_never_drops es n : never_kill es = true -> failS (run es (pool0 n)) = 0.
@@ -446,10 +557,11 @@ Qed.
 
 (* forced shutdown: a second (or first) shutdown(kill_workers=True) always sets the flag, and from then on the manager alone
    reaches the end in a fixed number of its own steps, whatever the tasks are doing *)
-Theorem forced_flag_always_set p : user p = true -> kill (step p (ShutdownCall true)) = true /\ shut (step p (ShutdownCall true)) = true.
+Theorem forced_flag_always_set p : user p = true -> sub p = None ->
+  kill (step p (ShutdownCall true)) = true /\ shut (step p (ShutdownCall true)) = true.
 Proof.
-  intros U. unfold step. rewrite U.
-  assert (E : true && shutdown_flags_first_with_kill_argument = true) by reflexivity. rewrite E.
+  intros U SN. unfold step, lock_free. rewrite U, SN.
+  assert (E : true && true && shutdown_flags_first_with_kill_argument = true) by reflexivity. rewrite E.
   pose proof (flag_shutdown_sets (Some true) p) as X. cbv zeta in X. destruct X as (Sh & _ & _ & _ & _ & _ & _ & _ & _ & _ & _ & _ & K). auto.
 Qed.
 Lemma run_cons e es p : run (e :: es) p = run es (step p e).
@@ -459,7 +571,7 @@ Proof. intros M D. unfold step, in_loop. rewrite M, D. reflexivity. Qed.
 
 Definition forced_steps : list ev := CheckShut :: repeat MgrOp 16.
 Theorem forced_shutdown_is_prompt u gs mx pr pn su okc fb fs rf :
-  let p := mkp u true false true gs mx pr pn su okc fb fs rf MLoop in
+  let p := mkp u true false true gs mx pr pn su okc fb fs rf MLoop None in
   let q := run forced_steps p in
   mgr q = MDone /\ pending q = 0 /\ procs q = [] /\ failS q = fs + pn /\ ok q = okc /\ failB q = fb.
 Proof. intros p q. subst q p. destruct u, gs; cbv -[Nat.add]; repeat split; reflexivity. Qed.
@@ -467,7 +579,7 @@ Proof. intros p q. subst q p. destruct u, gs; cbv -[Nat.add]; repeat split; refl
 (* the same after a death: every unresolved future fails with the BrokenProcessPool error, every worker is gone, the flag is set *)
 Definition broken_steps : list ev := Detect :: repeat MgrOp 11.
 Theorem death_fails_everything_loudly u sh k gs mx pr1 pr2 pn su okc fb fs rf :
-  let p := mkp u sh false k gs mx (pr1 ++ WDead :: pr2) pn su okc fb fs rf MLoop in
+  let p := mkp u sh false k gs mx (pr1 ++ WDead :: pr2) pn su okc fb fs rf MLoop None in
   let q := run broken_steps p in
   mgr q = MDone /\ broken q = true /\ pending q = 0 /\ procs q = [] /\ failB q = fb + pn /\ ok q = okc /\ failS q = fs.
 Proof.
@@ -479,23 +591,24 @@ Proof.
 Qed.
 
 (* H8 on the model: a resize top-up that arrives after the manager is gone leaves workers nobody will ever kill or reap *)
+Definition submit_all : list ev := Submit :: repeat SubmitStep 7.
 Example resize_after_the_end_leaves_workers :
-  let p := run [Submit; Crash 0; Detect; MgrOp; MgrOp; MgrOp; MgrOp; MgrOp; MgrOp; MgrOp; MgrOp; MgrOp; MgrOp; MgrOp; ResizeTopUp] (pool0 2) in
+  let p := run (submit_all ++ [Crash 0; Detect; MgrOp; MgrOp; MgrOp; MgrOp; MgrOp; MgrOp; MgrOp; MgrOp; MgrOp; MgrOp; MgrOp; ResizeTopUp]) (pool0 2) in
   mgr p = MDone /\ procs p = [WAlive; WAlive] /\ broken p = true.
 Proof. vm_compute. auto. Qed.
 
 Example graceful_example :
-  let p := run [Submit; Submit; Complete 0; ShutdownCall false; CheckShut; MgrOp; MgrOp; MgrOp; Complete 1; CheckShut; MgrOp; MgrOp; MgrOp;
-                MgrOp; MgrOp; MgrOp; MgrOp; MgrOp; MgrOp; MgrOp; Submit] (pool0 2) in
+  let p := run (submit_all ++ submit_all ++ [Complete 0; ShutdownCall false; CheckShut; MgrOp; MgrOp; MgrOp; Complete 1; CheckShut; MgrOp; MgrOp;
+                MgrOp; MgrOp; MgrOp; MgrOp; MgrOp; MgrOp; MgrOp; MgrOp; Submit]) (pool0 2) in
   mgr p = MDone /\ ok p = 2 /\ submitted p = 2 /\ refused p = 1 /\ procs p = [] /\ broken p = false.
 Proof. vm_compute. auto 10. Qed.
 
-Theorem shut_down_pool_refuses p : user p = true -> shut p = true ->
+Theorem shut_down_pool_refuses p : user p = true -> sub p = None -> shut p = true ->
   pending (step p Submit) = pending p /\ refused (step p Submit) = S (refused p) /\ submitted (step p Submit) = submitted p.
 Proof.
-  intros U S. unfold step. rewrite U.
+  intros U SN S. unfold step, lock_free. rewrite U, SN. cbn [andb].
   assert (C : closed p = true) by (unfold closed; rewrite S; destruct (user p); reflexivity).
-  rewrite (submit_refused_when_closed p C U). simpl. auto.
+  rewrite (checks_fail_when_closed p C U). simpl. auto.
 Qed.
 
 (* every accepted submit tops the pool back up to exactly max_workers *)
@@ -527,3 +640,115 @@ Fixpoint index_of (x : sop) (l : list sop) : nat :=
                                    then 0 else S (index_of x t) end.
 Theorem submit_registers_before_topping_up : index_of SAddPending submit_prog < index_of SEnsureRunning submit_prog.
 Proof. vm_compute. repeat constructor. Qed.
+
+(* ------------------------------------------------------------------------------------------------------------------ *)
+(* 4. A registered job is never left without a worker (C07 / C08), with submit() NOT atomic: its statements interleave with idle
+      exits, reaps and completions in every possible way.  Healthy executor: referenced, no shutdown, no death. *)
+Definition healthy_ev (e : ev) : bool :=
+  match e with Submit | SubmitStep | IdleExit _ | Reap _ | Complete _ => true | _ => false end.
+Definition sub_suffix (p : pool) : Prop := match sub p with Some r => exists k, r = skipn k submit_prog | None => True end.
+Definition Served (p : pool) : Prop :=
+  user p = true /\ mgr p = MLoop /\ closed p = false /\ broken p = false /\ 0 < maxw p /\ sub_suffix p /\
+  (0 < pending p -> procs p <> [] \/ ensure_due p = true).
+
+Lemma served0 n : 0 < n -> Served (pool0 n).
+Proof. intros H. unfold Served, sub_suffix, pool0, closed; simpl. repeat split; auto. intros X; lia. Qed.
+
+Lemma nonempty_app (l : list wst) k : 0 < k \/ l <> [] -> l ++ repeat WAlive k <> [].
+Proof. intros [H|H]; destruct l; try discriminate; [destruct k; [lia | discriminate] | congruence]. Qed.
+Lemma set_nth_nonempty (l : list wst) i v : l <> [] -> set_nth l i v <> [].
+Proof. destruct l; [congruence|]. destruct i; discriminate. Qed.
+
+(* in the generated program the top-up comes after the registration: every suffix that starts with the registration contains it *)
+Lemma ensure_after_add k r : skipn k submit_prog = SAddPending :: r -> existsb is_ensure r = true.
+Proof.
+  unfold submit_prog. intros H.
+  do 11 (destruct k as [|k]; [simpl in H; try discriminate; inversion H; subst; reflexivity|]); simpl in H; destruct k; discriminate.
+Qed.
+
+Lemma nxt_due (r : list sop) : existsb is_ensure r = true -> match r with [] => None | _ => Some r end = Some r.
+Proof. destruct r; [discriminate | reflexivity]. Qed.
+
+Lemma served_step p e : healthy_ev e = true -> Served p -> Served (step p e).
+Proof.
+  intros HE HS. pose proof HS as (U & M & C & B & Mx & SF & J). destruct e; try discriminate; unfold step.
+  - (* Submit: takes the lock, runs the leading checks *)
+    rewrite U. destruct (lock_free p) eqn:LF; [|exact HS].
+    assert (SN : sub p = None) by (unfold lock_free in LF; destruct (sub p); [discriminate | reflexivity]).
+    cbn [andb]. destruct (checks_pass submit_prog p) as [rest|] eqn:CP.
+    + destruct (checks_pass_means_open p rest CP) as (_ & _ & _ & R).
+      unfold Served, sub_suffix, closed, ensure_due in *; simpl. rewrite SN in J.
+      split; [exact U|]. split; [first [exact M | reflexivity]|]. split; [exact C|]. split; [exact B|]. split; [exact Mx|]. split.
+      * destruct rest; [exact I | exists 3; exact R].
+      * intros X. destruct (J X) as [Y|Y]; [left; exact Y | discriminate].
+    + unfold Served, sub_suffix, closed, ensure_due in *; simpl. rewrite SN in J. auto 10.
+  - (* SubmitStep *)
+    destruct (sub p) as [[|o r]|] eqn:SB.
+    + unfold Served, sub_suffix, closed, ensure_due in *; simpl. rewrite SB in J.
+      split; [exact U|]. split; [first [exact M | reflexivity]|]. split; [exact C|]. split; [exact B|]. split; [exact Mx|]. split; [exact I|].
+      intros X. destruct (J X) as [Y|Y]; [left; exact Y | discriminate].
+    + unfold sub_suffix in SF. rewrite SB in SF. destruct SF as (k & K).
+      assert (Kr : r = skipn (S k) submit_prog) by (symmetry; apply (skipn_cons _ _ o); symmetry; exact K).
+      assert (Sh : shut p = false /\ gshut p = false).
+      { unfold closed in C. rewrite U in C. simpl in C. apply orb_false_iff in C. exact C. }
+      destruct Sh as [Sh Gs].
+      assert (NR : raises o p = false) by (destruct o; simpl; auto).
+      assert (SFr : forall q, sub q = match r with [] => None | _ => Some r end -> sub_suffix q).
+      { intros q Hq. unfold sub_suffix. rewrite Hq. destruct r; [exact I | exists (S k); exact Kr]. }
+      unfold ensure_due in J. rewrite SB in J.
+      unfold sop1. destruct o; rewrite ?NR.
+      all: try (unfold Served, closed, ensure_due; simpl;
+                split; [exact U|]; split; [first [exact M | reflexivity]|]; split; [exact C|]; split; [exact B|]; split; [exact Mx|]; split; [apply SFr; reflexivity|];
+                intros X; destruct (J X) as [Y|Y]; [left; exact Y | right; simpl in Y; rewrite (nxt_due r Y); exact Y]).
+      * (* SAddPending: the top-up is still to come *)
+        pose proof (ensure_after_add k r (eq_sym K)) as D.
+        unfold Served, closed, ensure_due; simpl.
+        split; [exact U|]. split; [first [exact M | reflexivity]|]. split; [exact C|]. split; [exact B|]. split; [exact Mx|]. split; [apply SFr; reflexivity|].
+        intros _. right. rewrite (nxt_due r D). exact D.
+      * (* SEnsureRunning *)
+        assert (ensure_running_tops_up_then_starts_manager = true) as -> by reflexivity.
+        unfold Served, closed, ensure_due, top_up; simpl.
+        split; [exact U|]. split; [first [exact M | reflexivity]|]. split; [exact C|]. split; [exact B|]. split; [exact Mx|]. split; [apply SFr; reflexivity|].
+        intros _. left. apply nonempty_app. destruct (procs p) as [|w l]; [left; simpl; lia | right; discriminate].
+    + exact HS.
+  - (* IdleExit *)
+    destruct (nth_error (procs p) i) as [[| |]|] eqn:N; try exact HS.
+    unfold Served, sub_suffix, closed, ensure_due in *; simpl.
+    split; [exact U|]. split; [first [exact M | reflexivity]|]. split; [exact C|]. split; [exact B|]. split; [exact Mx|]. split; [exact SF|].
+    intros X. destruct (J X) as [Y|Y]; [left; apply set_nth_nonempty, Y | right; exact Y].
+  - (* Complete *)
+    destruct (nth_error (procs p) i) as [[| |]|] eqn:N; try exact HS.
+    destruct (pending p) as [|q] eqn:Pn; [exact HS|].
+    unfold in_loop. rewrite M. unfold Served, sub_suffix, closed, ensure_due in *; simpl.
+    split; [exact U|]. split; [first [exact M | reflexivity]|]. split; [exact C|]. split; [exact B|]. split; [exact Mx|]. split; [exact SF|].
+    intros X. left. intros E. rewrite E in N. destruct i; discriminate.
+  - (* Reap: the manager pops and joins a clean exit, and refills the pool when work waits *)
+    destruct (nth_error (procs p) i) as [[| |]|] eqn:N; try exact HS.
+    unfold in_loop. rewrite M, U.
+    assert (clean_exit_reads_counters_after_the_pop_and_respawns_when_work_waits = true) as -> by reflexivity.
+    destruct (Nat.eqb (pending p) 0) eqn:Z; cbn [andb negb].
+    + apply Nat.eqb_eq in Z. unfold Served, sub_suffix, closed, ensure_due in *; simpl.
+      split; [exact U|]. split; [first [exact M | reflexivity]|]. split; [exact C|]. split; [exact B|]. split; [exact Mx|]. split; [exact SF|]. intros X. lia.
+    + unfold Served, sub_suffix, closed, ensure_due, top_up in *; simpl.
+      split; [exact U|]. split; [first [exact M | reflexivity]|]. split; [exact C|]. split; [exact B|]. split; [exact Mx|]. split; [exact SF|].
+      intros _. left. apply nonempty_app.
+      destruct (del_nth (procs p) i) as [|w l]; [left; simpl; lia | right; discriminate].
+Qed.
+
+Theorem registered_job_always_has_a_worker_coming n es :
+  0 < n -> forallb healthy_ev es = true -> let p := run es (pool0 n) in
+  0 < pending p -> procs p <> [] \/ ensure_due p = true.
+Proof.
+  intros H HE. assert (S : Served (run es (pool0 n))).
+  { generalize (served0 n H). generalize (pool0 n). unfold run. induction es as [|e es IH]; intros p0 S0; simpl; [exact S0|].
+    simpl in HE. apply andb_true_iff in HE. destruct HE as [He Hes]. apply IH; [exact Hes | apply served_step; assumption]. }
+  intros p. apply S.
+Qed.
+
+(* the opposite order (top the pool up, then register) loses the job: all idle workers leave in between (seeded change C07_b) *)
+Example top_up_before_registering_loses_the_job :
+  let prog := [SEnsureRunning; SAddPending] in
+  let p0 := set_sub (pool0 1) (Some prog) in
+  let p := run [SubmitStep; IdleExit 0; Reap 0; SubmitStep] p0 in
+  pending p = 1 /\ procs p = [] /\ ensure_due p = false /\ mgr p = MLoop.
+Proof. vm_compute. auto. Qed.
